@@ -239,11 +239,21 @@ def enqueueBlock (P : Params) (s : Proc) (b : Blk) : Except Err Proc :=
 
 /-! #### block_processor.c: `load_frag_block`, `chunk_info_equals`; the hash table -/
 
+/-- `proc->frag_block != NULL && proc->frag_block->index == idx`: the open block's bytes -/
+def openBytes (o : Option Blk) (idx : Nat) : Option Bytes :=
+  match o with
+  | some fb => if fb.index = idx then some fb.data else none
+  | none => none
+
+/-- `proc->cached_frag_blk != NULL && proc->cached_frag_blk->index == idx` -/
+def cacheHit (c : Option (Nat × Bytes)) (idx : Nat) : Option Bytes :=
+  match c with
+  | some (ci, cd) => if ci = idx then some cd else none
+  | none => none
+
 /-- `load_frag_block(proc, index)`: the uncompressed block and the new `cached_frag_blk` -/
 def loadFragBlock (P : Params) (s : Proc) (idx : Nat) : Except Err (Bytes × Option (Nat × Bytes)) :=
-  match (match s.cachedFragBlk with
-         | some (ci, cd) => if ci = idx then some cd else none
-         | none => none) with
+  match cacheHit s.cachedFragBlk idx with
   | some cd => .ok (cd, s.cachedFragBlk)
   | none =>
     match s.w.fragTbl[idx]? with
@@ -267,9 +277,7 @@ def fragBytes (P : Params) (s : Proc) (idx : Nat) : Except Err (Bytes × Option 
   match s.fblkInFlight.find? (fun e => e.1 == idx) with
   | some e => .ok (e.2, s.cachedFragBlk)
   | none =>
-    match (match s.fragBlock with
-           | some fb => if fb.index = idx then some fb.data else none
-           | none => none) with
+    match openBytes s.fragBlock idx with
     | some d => .ok (d, s.cachedFragBlk)
     | none => loadFragBlock P s idx
 
@@ -337,6 +345,51 @@ def processCompletedBlock (s : Proc) (b : Blk) : Except Err Proc :=
   | .error e => .error e
   | .ok w' => .ok (releaseOldBlock { s1 with w := w' })
 
+/-- backend.c:151-176: the table lookup of `process_completed_fragment` (skipped under `DONT_DEDUPLICATE`) -/
+def lookupFrag (P : Params) (s : Proc) (frag : Blk) : Except Err (Option Chunk × Proc) :=
+  if !hasFlag frag.flags blkDontDeduplicate then
+    search P s frag.data frag.chk (frag.flags &&& blkDontCompress) s.fragHt
+  else .ok (none, s)
+
+/-- backend.c:178-190: the fragment does not fit — the open block gets the next I/O sequence number **now** and goes
+to the pool -/
+def makeRoom (P : Params) (s : Proc) (len : Nat) : Except Err Proc :=
+  match s.fragBlock with
+  | some fb =>
+    if fb.data.length + len > P.B then
+      enqueueBlock P { s with fragBlock := none, ioSeqNum := s.ioSeqNum + 1 } { fb with seq := s.ioSeqNum }
+    else .ok s
+  | none => .ok s
+
+/-- backend.c:192-217: the fragment becomes the new open block (next table index, offset 0) or is appended to the open
+one; result: new state, index, offset -/
+def placeFrag (s : Proc) (frag : Blk) : Proc × Nat × Nat :=
+  match s.fragBlock with
+  | none =>
+    ({ s with w := { s.w with fragTbl := s.w.fragTbl ++ [(0, 0)] },
+              fragBlock := some { frag with index := s.w.fragTbl.length,
+                                            flags := (frag.flags &&& blkDontCompress) ||| blkFragmentBlock } },
+     s.w.fragTbl.length, 0)
+  | some fb =>
+    ({ s with fragBlock := some { fb with data := fb.data ++ frag.data,
+                                          flags := fb.flags ||| (frag.flags &&& blkDontCompress) } },
+     fb.index, fb.data.length)
+
+/-- backend.c:178-259: a fragment that was not found in the table is stored and recorded -/
+def storeFrag (P : Params) (s : Proc) (frag : Blk) : Except Err Proc :=
+  match makeRoom P s frag.data.length with
+  | .error e => .error e
+  | .ok s2 =>
+    let r := placeFrag s2 frag
+    match insert P r.1 frag.data ⟨r.2.1, r.2.2, frag.data.length, frag.chk, frag.flags &&& blkDontCompress⟩ [] r.1.fragHt with
+    | .error e => .error e
+    | .ok s4 =>
+      let s5 : Proc := { s4 with w := modInode s4.w frag.inode (fun i => { i with fragIdx := r.2.1, fragOff := r.2.2 }) }
+      -- `if (frag != proc->frag_block) release_old_block(proc, frag);`
+      .ok (match s2.fragBlock with
+           | none => s5
+           | some _ => releaseOldBlock s5)
+
 /-- `process_completed_fragment` -/
 def processCompletedFragment (P : Params) (s : Proc) (frag : Blk) : Except Err Proc :=
   if hasFlag frag.flags blkIsSparse then
@@ -344,44 +397,11 @@ def processCompletedFragment (P : Params) (s : Proc) (frag : Blk) : Except Err P
       let i1 := ({ i with extended := true } : Inode).setBlockSize frag.index 0
       { i1 with sparse := i1.sparse + frag.data.length }) })
   else
-    match (if !hasFlag frag.flags blkDontDeduplicate then
-             search P s frag.data frag.chk (frag.flags &&& blkDontCompress) s.fragHt
-           else .ok (none, s)) with
+    match lookupFrag P s frag with
     | .error e => .error e
     | .ok (some c, s1) =>
       .ok (releaseOldBlock { s1 with w := modInode s1.w frag.inode (fun i => { i with fragIdx := c.index, fragOff := c.offset }) })
-    | .ok (none, s1) =>
-      -- the fragment does not fit: the open block gets the next I/O sequence number and goes to the pool
-      match (match s1.fragBlock with
-             | some fb =>
-               if fb.data.length + frag.data.length > P.B then
-                 enqueueBlock P { s1 with fragBlock := none, ioSeqNum := s1.ioSeqNum + 1 } { fb with seq := s1.ioSeqNum }
-               else .ok s1
-             | none => .ok s1) with
-      | .error e => .error e
-      | .ok s2 =>
-        let index := match s2.fragBlock with
-          | none => s2.w.fragTbl.length
-          | some fb => fb.index
-        let offset := match s2.fragBlock with
-          | none => 0
-          | some fb => fb.data.length
-        let s3 : Proc := match s2.fragBlock with
-          | none =>
-            { s2 with w := { s2.w with fragTbl := s2.w.fragTbl ++ [(0, 0)] },
-                      fragBlock := some { frag with index := index,
-                                                    flags := (frag.flags &&& blkDontCompress) ||| blkFragmentBlock } }
-          | some fb =>
-            { s2 with fragBlock := some { fb with data := fb.data ++ frag.data,
-                                                  flags := fb.flags ||| (frag.flags &&& blkDontCompress) } }
-        match insert P s3 frag.data ⟨index, offset, frag.data.length, frag.chk, frag.flags &&& blkDontCompress⟩ [] s3.fragHt with
-        | .error e => .error e
-        | .ok s4 =>
-          let s5 : Proc := { s4 with w := modInode s4.w frag.inode (fun i => { i with fragIdx := index, fragOff := offset }) }
-          -- `if (frag != proc->frag_block) release_old_block(proc, frag);`
-          .ok (match s2.fragBlock with
-               | none => s5
-               | some _ => releaseOldBlock s5)
+    | .ok (none, s1) => storeFrag P s1 frag
 
 /-- `store_io_block`: insert before the first element whose sequence number is not smaller -/
 def storeIo (b : Blk) : List Blk → List Blk
